@@ -1033,7 +1033,41 @@ func (f *frame) instr(n *vnode, st *State, in ssa.Instruction) {
 		}
 		st.env[in] = Tuple{okc, mk(tup.At(1).Type()), mk(tup.At(2).Type())}
 	case *ssa.RunDefers:
-		// functions with defer are rejected when the Defer instruction is met
+		// deferred calls (other than mutex unlocks) run here, last deferred
+		// first. Only defers that are certainly pending are supported: a Defer
+		// whose block dominates this exit; one that may or may not have run
+		// (conditional defer) is outside the subset.
+		fn := in.Parent()
+		var pending []*ssa.Defer
+		for _, b := range fn.Blocks {
+			for k, x := range b.Instrs {
+				d, ok := x.(*ssa.Defer)
+				if !ok || f.isUnlock(d) {
+					continue
+				}
+				dom := b.Dominates(in.Block()) && (b != in.Block() || k < indexOf(in.Block(), in))
+				if dom {
+					pending = append(pending, d)
+				} else if reaches(b, in.Block()) {
+					unsup("defer that is not executed on every path to this exit")
+				}
+			}
+		}
+		// dominance order is execution order; run in reverse
+		sort.SliceStable(pending, func(i, j int) bool {
+			bi, bj := pending[i].Block(), pending[j].Block()
+			if bi == bj {
+				return indexOf(bi, pending[i]) < indexOf(bj, pending[j])
+			}
+			return bi.Dominates(bj)
+		})
+		for k := len(pending) - 1; k >= 0 && !st.dead; k-- {
+			d := pending[k]
+			if callee := d.Call.StaticCallee(); callee != nil && usesRecover(callee) {
+				unsup("deferred function that calls recover")
+			}
+			f.call(st, d, d.Common(), d.Pos())
+		}
 	case *ssa.Defer:
 		f.deferInstr(st, in)
 	case *ssa.Go:
@@ -1053,18 +1087,78 @@ func isConstLike(v ssa.Value) bool {
 	return false
 }
 
-func (f *frame) deferInstr(st *State, in *ssa.Defer) {
-	// Only mutex unlocks are tolerated: a lock-protected method is verified as
-	// one atomic step (mutual exclusion is trusted).
+func (f *frame) isUnlock(in *ssa.Defer) bool {
 	if callee := in.Call.StaticCallee(); callee != nil {
 		name := callee.String()
-		if strings.Contains(name, "sync.Mutex).Unlock") || strings.Contains(name, "sync.RWMutex).Unlock") ||
-			strings.Contains(name, "sync.RWMutex).RUnlock") {
-			f.vc.trusted["sync.Mutex (mutual exclusion; critical section verified as one atomic step)"] = true
-			return
+		return strings.Contains(name, "sync.Mutex).Unlock") || strings.Contains(name, "sync.RWMutex).Unlock") ||
+			strings.Contains(name, "sync.RWMutex).RUnlock")
+	}
+	return false
+}
+
+func (f *frame) deferInstr(st *State, in *ssa.Defer) {
+	// A mutex unlock is a no-op here: a lock-protected method is verified as
+	// one atomic step (mutual exclusion is trusted). Every other deferred call
+	// is executed at the RunDefers instruction of each normal exit; what it
+	// does while a panic unwinds is not modelled.
+	if f.isUnlock(in) {
+		f.vc.trusted["sync.Mutex (mutual exclusion; critical section verified as one atomic step)"] = true
+		return
+	}
+	if callee := in.Call.StaticCallee(); callee != nil && usesRecover(callee) {
+		unsup("deferred function that calls recover")
+	}
+	f.vc.note("deferred call " + in.Call.String() + ": executed at normal exits; its effect while a panic unwinds is not modelled")
+}
+
+// usesRecover: the function body (or a function literal inside it) calls recover.
+func usesRecover(fn *ssa.Function) bool {
+	for _, b := range fn.Blocks {
+		for _, in := range b.Instrs {
+			if c, ok := in.(ssa.CallInstruction); ok {
+				if bi, ok := c.Common().Value.(*ssa.Builtin); ok && bi.Name() == "recover" {
+					return true
+				}
+			}
 		}
 	}
-	unsup("defer")
+	for _, a := range fn.AnonFuncs {
+		if usesRecover(a) {
+			return true
+		}
+	}
+	return false
+}
+
+func indexOf(b *ssa.BasicBlock, in ssa.Instruction) int {
+	for i, x := range b.Instrs {
+		if x == in {
+			return i
+		}
+	}
+	return -1
+}
+
+// reaches: block b can reach block t along CFG edges.
+func reaches(b, t *ssa.BasicBlock) bool {
+	seen := map[*ssa.BasicBlock]bool{}
+	var walk func(x *ssa.BasicBlock) bool
+	walk = func(x *ssa.BasicBlock) bool {
+		if x == t {
+			return true
+		}
+		if seen[x] {
+			return false
+		}
+		seen[x] = true
+		for _, s := range x.Succs {
+			if walk(s) {
+				return true
+			}
+		}
+		return false
+	}
+	return walk(b)
 }
 
 func (f *frame) panicAt(st *State, in *ssa.Panic) {
